@@ -8,7 +8,8 @@ Metadata: `a:v,a:v` or `-`.  Optional numbers / lists: `n` = None.
   K new s w | K addnode s n md | K addedge s key w|n md | K rmedge s key | K setw s key w
   K setnm s n md | K setem s key md | K attrn s n a v | K attre s key a v
   K setim s key n md | K attri s key n a v   (key as given: `u` stores under the unsorted tuple)
-  K addempty s name md | K sethm s md | K attrh s a v                            -> ok | rej
+  K addempty s name md | K sethm s md | K attrh s a v
+  K addnodes s nodes tbl|n   (tbl = `node=md;node=md`, `~` empty) | K rmnode s n keep | K clear s      -> ok | rej
   K copy i j | K induced i j nodes | K lcc i j comp | K byorders i j orders|n sizes|n keep
   K edgessub i j order|n size|n upto keep                                        -> ok | rej
   K getedges i j order|n size|n upto sub keep md   (get_edges with all its flags)
@@ -52,6 +53,14 @@ def showMeta (m : Meta) : String :=
 
 def optInt? (s : String) : Option (Option Int) := if s = "n" then some none else (s.toInt?).map some
 def optInts? (s : String) : Option (Option (List Int)) := if s = "n" then some none else (ints? s).map some
+def tbl? (s : String) : Option (Option (List (Node × Meta))) :=
+  if s = "n" then some none else
+  (listOf? ";" "~" (fun t => match t.splitOn "=" with
+    | [a, m] => do
+        let x ← a.toNat?
+        let y ← meta? m
+        some (x, y)
+    | _ => none) s).map some
 def bool? (s : String) : Option Bool := if s = "1" then some true else if s = "0" then some false else none
 
 section
@@ -150,6 +159,15 @@ def stepK (sl : Slots κ) : List String → Slots κ × String
       let a ← a.toNat?
       let v ← v.toNat?
       some (mutateOp sl s (.setHyperAttr a v))
+  | ["addnodes", s, ns, tbl] => orBad sl do
+      let ns ← nats? ns
+      let tbl ← tbl? tbl
+      some (mutateOp sl s (.addNodes ns tbl))
+  | ["rmnode", s, n, keep] => orBad sl do
+      let n ← n.toNat?
+      let keep ← bool? keep
+      some (mutateOp sl s (.removeNode n keep))
+  | ["clear", s] => mutateOp sl s .clear
   | ["copy", i, j] => extract sl i j (fun c => some (copy c))
   | ["induced", i, j, ns] => orBad sl do
       let ns ← nats? ns
